@@ -270,9 +270,12 @@ def pstep (s : PState) : POp → PState × PRes
       ({ s with nbElt := s.nbElt.set t (s.nbElt.getD t 0 + 1), out := ⟨s.next, t⟩ :: s.out, next := s.next + 1 },
        .got ⟨s.next, t⟩ true)
   | .free id =>
-    match s.out.find? (fun e => e.id == id) with
+    match s.out.findIdx? (fun e => e.id == id) with
     | none => (s, .rejected)
-    | some e => ({ s with pools := s.pools.set e.owner (e :: s.pools.getD e.owner []), out := s.out.erase e }, .freed e.owner)
+    | some i =>
+      match s.out[i]? with
+      | none => (s, .rejected)
+      | some e => ({ s with pools := s.pools.set e.owner (e :: s.pools.getD e.owner []), out := s.out.eraseIdx i }, .freed e.owner)
 
 def prun (s : PState) (ops : List POp) : PState := ops.foldl (fun s o => (pstep s o).1) s
 
